@@ -409,6 +409,15 @@ class MapView(View):
         return z3.Select(self.dom(), self.key(k))
 
     def key(self, k):
+        if isinstance(k, str) and self.typ.key == NameS:
+            # a concrete dotted name used as a key: the join of its parts (with the ground axioms of that term)
+            parts = k.split(".")
+            t = join_fn(len(parts))(*[part_const(p) for p in parts])
+            eng = getattr(self.store, "eng", None)
+            if eng is not None:
+                for ax in name_axioms_for(t):
+                    eng.assume(ax)
+            return t
         return coerce_scalar(k, self.typ.key).t
 
     def getitem(self, k):
